@@ -1,5 +1,119 @@
-(* C08 - placeholder while the correspondence is validated *)
+(* C08 - result adapters deliver each call once, at the richest protocol the target has.
+   Only statements; every proof is `exact <lemma of Proof/C08.v>`.
+
+   input  = an adapter stack (tree of ExtendedToOriginalDecorator / MultiTestResult / TestResultDecorator /
+            Tagger over targets given by ANY capability set, and TestByTestResult) and a history of calls;
+   model  = Model/Adapters.v run on it: the log of every innermost result, the on_test callbacks, the
+            calls that raised;
+   wf     = the stack is well-formed (a TestResultDecorator/Tagger decorates something that speaks the
+            extended protocol), the history is bracketed, detail names are distinct (Spec.C08.wfb). *)
 From TT Require Import Lib.Base Model.Adapters Spec.C08 Corr.C08 Proof.C08.
-Example C08_example : spec_okb {| stack := E2O (Target py26); hist := [] |} (model {| stack := E2O (Target py26); hist := [] |}) = true.
-Proof. vm_compute. reflexivity. Qed.
-Print Assumptions C08_example.
+
+(* The model meets the whole statement, for every stack, every capability set and every history. *)
+Theorem C08_holds : forall i : input, wf i -> spec_okb i (model i) = true.
+Proof. exact model_meets_spec. Qed.
+Print Assumptions C08_holds.
+
+(* ... and the executable statement (the oracle applied to the implementation's observations)
+   implies the readable one, Spec.C08.Spec. *)
+Theorem C08_statement : forall i o, spec_okb i o = true -> Spec i o.
+Proof. exact spec_okb_sound. Qed.
+Print Assumptions C08_statement.
+
+(* The correspondence compares observations up to the wording of synthetic texts and skip reasons
+   (Corr.C08.alpha), and exactly otherwise. *)
+Theorem C08_obs_eqb : forall a b, obs_eqb a b = true <-> alpha a = alpha b.
+Proof. exact obs_eqb_spec. Qed.
+Print Assumptions C08_obs_eqb.
+
+(* One observation per innermost result, a log for a logging result and callbacks for a TestByTestResult. *)
+Theorem C08_leaves : forall i, wf i ->
+  Forall2 (fun lt lo => match fst lt, lo with LfTarget _, OLog _ | LfByTest, OCbs _ => True | _, _ => False end)
+          (spec_leaves (stack i)) (o_leaves (model i)).
+Proof. exact model_leaves. Qed.
+Print Assumptions C08_leaves.
+
+(* Every startTest, outcome and stopTest of the history arrives at every innermost result exactly once
+   and in order: the log's projection to these calls (slot and test) is the history's. *)
+Theorem C08_once_in_order : forall i, wf i -> forall k c tg,
+  nth_error (spec_leaves (stack i)) k = Some (LfTarget c, tg) ->
+  exists l, nth_error (o_leaves (model i)) k = Some (OLog l)
+            /\ map shape (bracket l) = map shape (bracket (hist i)).
+Proof. exact model_once_in_order. Qed.
+Print Assumptions C08_once_in_order.
+
+(* What arrives is what the degradation table (Spec.C08.Delivered) names for the capabilities of that
+   result: skip / expected failure -> success without addSkip / addExpectedFailure, unexpected success ->
+   failure, details -> _StringException whose text contains every non-blank text detail, skip reason =
+   details['reason'] text. *)
+Theorem C08_degradation : forall i, wf i -> forall k c tg,
+  nth_error (spec_leaves (stack i)) k = Some (LfTarget c, tg) ->
+  exists l, nth_error (o_leaves (model i)) k = Some (OLog l)
+            /\ Forall2 (Delivered c) (bracket (hist i)) (bracket l).
+Proof. exact model_degradation. Qed.
+Print Assumptions C08_degradation.
+
+(* The substring lemma on the model of _details_to_str, and the reason taken from details['reason']. *)
+Theorem C08_details_text : forall d special, NoDup (map fst d) -> ContainsAll d (details_to_str d special).
+Proof. exact details_text. Qed.
+Print Assumptions C08_details_text.
+
+Theorem C08_skip_reason : forall d r, lookup n_reason d = Some (DText r) -> skip_reason d = r.
+Proof. exact skip_reason_key. Qed.
+Print Assumptions C08_skip_reason.
+
+(* Error, failure and unexpected success arrive as error, failure or unexpected success. *)
+Theorem C08_no_pass_from_fail : forall i, wf i -> forall k c tg,
+  nth_error (spec_leaves (stack i)) k = Some (LfTarget c, tg) ->
+  exists l, nth_error (o_leaves (model i)) k = Some (OLog l)
+            /\ Forall2 (fun hc lc => is_fail hc = true -> is_fail lc = true) (bracket (hist i)) (bracket l).
+Proof. exact model_no_pass_from_fail. Qed.
+Print Assumptions C08_no_pass_from_fail.
+
+(* TestByTestResult: one callback per test, in order, with the times in force at startTest / stopTest,
+   the tags current before the pop (two-level reading, the Taggers' changes first), the details and the
+   documented status word (Spec.C08.expected_cbs). *)
+Theorem C08_bytest : forall i, wf i -> forall k tg,
+  nth_error (spec_leaves (stack i)) k = Some (LfByTest, tg) ->
+  exists cbs, nth_error (o_leaves (model i)) k = Some (OCbs cbs)
+              /\ Forall2 CbSpec (expected_cbs tg sst_init (hist i)) cbs
+              /\ map cb_test cbs = stop_tests (hist i)
+              /\ stop_tests (hist i) = start_tests (hist i).
+Proof. exact model_bytest. Qed.
+Print Assumptions C08_bytest.
+
+(* Table obligation: the status words probed from the live TestByTestResult (Gen/Bytest.v) are the
+   documented ones. *)
+Theorem C08_bytest_words :
+  (forall k t a, Some (bt_word_err k) = word_of (AddErr k t a))
+  /\ (forall t a, Some Gen.Bytest.bt_word_addSkip = word_of (AddSkip t a))
+  /\ (forall k t d, Some (bt_word_ok k) = word_of (AddOk k t d)).
+Proof. exact bt_words_documented. Qed.
+Print Assumptions C08_bytest_words.
+
+(* Only done() / progress() can raise, and only AttributeError. *)
+Theorem C08_raises : forall a c e, raises a c = Some e ->
+  e = AttributeError /\ (c = Done \/ exists o w, c = Progress o w).
+Proof. exact raises_only. Qed.
+Print Assumptions C08_raises.
+
+(* non-vacuity: a MultiTestResult over a tagged TestByTestResult and a 2.6-style result; an unexpected
+   success of a PlaceHolder with details, a skip with a 'reason' detail *)
+Example C08_example :
+  let d := [(n_reason, DText [97; 32]); (0, DText [32; 98; 32])] in
+  let i := {| stack := Multi [Tagger [1] [] ByTest; Target py26];
+              hist := [StartTestRun; Tags [2] []; Time 3; StartTest (th 1); AddOk KUxSuccess (th 1) (Some d);
+                       Time 5; StopTest (th 1); StartTest (tc 0); AddSkip (tc 0) (inr d); StopTest (tc 0);
+                       Progress 1 1; Done] |} in
+  wf i
+  /\ model i =
+     {| o_leaves :=
+          [OCbs [{| cb_test := th 1; cb_status := Some w_success; cb_start := Some 3; cb_stop := Some 5;
+                    cb_tags := [1; 2]; cb_details := Some d |};
+                 {| cb_test := tc 0; cb_status := Some w_skip; cb_start := Some 5; cb_stop := Some 5;
+                    cb_tags := [1; 2]; cb_details := Some d |}];
+           OLog [StartTest (th 1); AddErr KFailure (th 1) (inl Fresh); StopTest (th 1);
+                 StartTest (tc 0); AddOk KSuccess (tc 0) None; StopTest (tc 0)]];
+        o_raised := [(10, AttributeError)] |}
+  /\ substringb [98] (details_to_str d (Some n_traceback)) = true.
+Proof. vm_compute. repeat split. Qed.
